@@ -131,3 +131,39 @@ Proof.
   rewrite support_then_support0 by apply wf_tl_of. reflexivity.
 Qed.
 End AnnSupport.
+
+(* ---- consequences: the label timelines and durations of the support ---- *)
+Section SupportViews.
+Variable eps : Z.
+Hypothesis Heps : 0 <= eps.
+
+(* label_timeline(l) of a.support(collar) is label_timeline(l).support(collar) of a *)
+Theorem support_ann_label_timeline a collar l : AInv eps a ->
+  Z.of_nat (List.length (support_recs eps a collar)) < word_bound ->
+  lab_tl eps (a_tracks (support_ann eps a collar)) l = support eps collar (lab_tl eps (a_tracks a) l).
+Proof.
+  intros I Hb. destruct (support_ann_spec eps a collar I Hb) as [J _]. cbv zeta in J. pose proof (i_wf _ _ J) as Wc.
+  pose proof (i_wf _ _ I) as W.
+  apply ssorted_ext; [apply tl_of_sorted | apply tl_of_sorted |].
+  intro s. unfold lab_tl at 1. rewrite tl_of_In, (label_segments_In eps _ l s Wc).
+  rewrite (support_ann_label_segments' eps Heps a collar l s I Hb). split.
+  - tauto.
+  - intro Hs. assert (Hn : nonempty eps s = true) by (unfold support in Hs; apply tl_of_In in Hs; tauto).
+    split; [|exact Hn]. split; [|exact Hs].
+    (* a non-empty support means the label occurs *)
+    destruct (occurs_dec eps (a_tracks a) l W) as [Ho|Hno]; [exact Ho|]. exfalso.
+    assert (E : label_segments (a_tracks a) l = []) by (apply (label_segments_nil eps _ l W); intros x Hx; apply Hno; now exists x).
+    unfold lab_tl in Hs. rewrite E in Hs. cbn in Hs. exact Hs.
+Qed.
+
+(* with collar 0 the support changes no label's duration *)
+Corollary support_ann_keeps_durations a l : AInv eps a ->
+  Z.of_nat (List.length (support_recs eps a 0)) < word_bound ->
+  tl_duration eps (lab_tl eps (a_tracks (support_ann eps a 0)) l) = tl_duration eps (lab_tl eps (a_tracks a) l).
+Proof.
+  intros I Hb. rewrite (support_ann_label_timeline a 0 l I Hb). unfold tl_duration.
+  assert (Wl : wf eps (lab_tl eps (a_tracks a) l)) by apply wf_tl_of.
+  rewrite <- (support_is_support_iter eps 0 Heps _ (support_wf eps 0 _ Wl)).
+  rewrite (support_idempotent eps 0 Heps _ Wl). now rewrite (support_is_support_iter eps 0 Heps _ Wl).
+Qed.
+End SupportViews.
